@@ -77,6 +77,8 @@ type Sim struct {
 	// reported by the runtime itself); held: guard locks per goroutine.
 	Prop string
 	held map[uint64]map[any]int
+	// goroutines the simulator is unwinding with Goexit
+	dying sync.Map
 
 	step     int
 	MaxSteps int
@@ -459,10 +461,33 @@ func LockG(site string, try func() bool, key any) {
 	}
 }
 
+// MarkDying is called by simulated resources right before they end the calling
+// goroutine with runtime.Goexit (crash of the simulated process).
+func MarkDying() {
+	if s := Cur(); s != nil {
+		s.dying.Store(goid(), true)
+	}
+}
+
+// Unlock releases a mutex unless the calling goroutine is being unwound by the
+// simulator (killed while it waited in Lock: its deferred Unlock runs without
+// the mutex being held).
+func Unlock(unlock func()) {
+	if s := Cur(); s != nil {
+		if _, dying := s.dying.Load(goid()); dying {
+			return
+		}
+	}
+	unlock()
+}
+
 // UnlockG releases a guard lock.
 func UnlockG(unlock func(), key any) {
 	if s := Cur(); s != nil {
 		id := goid()
+		if _, dying := s.dying.Load(id); dying {
+			return
+		}
 		s.mu.Lock()
 		if m := s.held[id]; m != nil {
 			if m[key]--; m[key] <= 0 {
@@ -503,6 +528,7 @@ func AssertHeld(name string, key any) {
 
 func (s *Sim) park(t *Task, site, res string, spin bool) {
 	if s.closing.Load() || (t != nil && t.Inc.Dead()) {
+		s.dying.Store(goid(), true)
 		runtime.Goexit()
 	}
 	name := "~"
@@ -522,6 +548,7 @@ func (s *Sim) park(t *Task, site, res string, spin bool) {
 	default:
 	}
 	if <-w.ch == cmdKill {
+		s.dying.Store(goid(), true)
 		runtime.Goexit()
 	}
 }
